@@ -215,13 +215,15 @@ Definition parse_request (c : codec) (src : bytes) : codec * bytes * dres :=
         end
   end.
 
+(* Decoder::decode, after the header has been parsed *)
+Definition decode_body (c : codec) (src : bytes) : codec * bytes * dres :=
+  let h := c_hdr c in
+  if c_limit c <? h_bodylen h then (init_parser c, src, DFrame (ReqTooLarge h))
+  else if blen src <? h_bodylen h then (c, src, DNeedMore)
+  else parse_request c src.
+
 (* Decoder::decode *)
 Definition decode (c : codec) (src : bytes) : codec * bytes * dres :=
-  let step2 (c : codec) (src : bytes) :=
-    let h := c_hdr c in
-    if c_limit c <? h_bodylen h then (init_parser c, src, DFrame (ReqTooLarge h))
-    else if blen src <? h_bodylen h then (c, src, DNeedMore)
-    else parse_request c src in
   match c_state c with
   | PNone =>
       if blen src <? HEADER_LEN then (c, src, DNeedMore)
@@ -231,9 +233,9 @@ Definition decode (c : codec) (src : bytes) : codec * bytes * dres :=
         | Some (h, rest) =>
             let c1 := mkCodec h PHeaderParsed (c_limit c) in
             if negb (header_valid h) then (c1, rest, DError EInvalidData)
-            else step2 c1 rest
+            else decode_body c1 rest
         end
-  | PHeaderParsed => step2 c src
+  | PHeaderParsed => decode_body c src
   end.
 
 (* ---- responses ---- *)
